@@ -25,10 +25,10 @@ Theorem C15_parens_irrelevant : forall c e1 e2, iwf c e1 -> iwf c e2 -> strip_pa
   parse_infix c (itoks e1) = parse_infix c (itoks e2).
 Proof. exact parens_irrelevant. Qed.
 
-(* from text: ANY spacing of the tokens (white-space runs between tokens, empty where two tokens cannot fuse)
-   gives that tree through lexer, token check and parser *)
+(* from text: ANY spacing of the tokens (white-space runs and `;` comments between tokens, a separator empty only
+   where two tokens cannot fuse) gives that tree through lexer, token check and parser *)
 Theorem C15_source : forall c items e,
-  wf_items is_letter_tab is_number_tab true items -> map fst items = itoks e -> iwf c e -> ichk e ->
+  wf_items is_letter_tab is_number_tab true items -> drop_comments (map fst items) = itoks e -> iwf c e -> ichk e ->
   parse_source c true (render items) = Some (itree c e).
 Proof. exact infix_source. Qed.
 
